@@ -46,7 +46,7 @@ func f03Matches(t *table, ts []tok) bool {
 }
 
 func (t *table) repro(src string, ts []tok) map[string]any {
-	return map[string]any{"bin": t.Bin, "un": t.Un, "alias": t.Alias, "src": src, "tokens": strings.Join(tokStrings(ts), " ")}
+	return map[string]any{"bin": t.Bin, "un": t.Un, "alias": t.Alias, "builder_order": t.Order, "src": src, "tokens": strings.Join(tokStrings(ts), " ")}
 }
 
 func (t *table) id() string {
